@@ -358,6 +358,20 @@ theorem C17_ix_trimOWS (s : Bytes) (n : Nat) : Ix.trimOWS s n = .ok (Headers.tri
 /-- **P8 (cutAtComma).** -/
 theorem C17_ix_cutAtComma (str : Bytes) (n : Nat) : Ix.cutAtComma str n = .ok (Headers.cutAtComma str n) := Ix.cutAtComma_refines str n
 
+/-- **P8 (insert).** The generic slice insertion of radix.go (`append`, overlapping `copy`, `s[i] = v`) with
+`0 ≤ i ≤ len(s)` — the range of the position `slices.BinarySearch` returns — stays in range and inserts at `i`. -/
+theorem C17_ix_insert {α : Type} [Inhabited α] (s : List α) (i : Nat) (h : i ≤ s.length) (v : α) :
+    Ix.insertG s (i : Int) v = .ok (s.take i ++ v :: s.drop i) := Ix.insertG_refines s i h v
+/-- **P8 (First).** -/
+theorem C17_ix_first (v : Option (List Bytes)) :
+    Ix.first v = .ok (match v with | some (x :: _) => some (x, [x]) | _ => none) := Ix.first_refines v
+/-- **P8 (ASCIISet).** The `[8]uint32` bit set: `MakeASCIISet(chars)` never indexes the array out of range, and
+for every byte `c`, `Contains(c)` neither does nor answers anything but "c occurs in chars" — the list membership
+by which the model represents every byte class of the lexers (`Cors.asciiContains` on the regenerated tables). -/
+theorem C17_ix_asciiSet (chars : Bytes) (hb : ∀ x ∈ chars, x < 256) :
+    ∃ as, Ix.makeASCIISet chars Ix.zero8 = .ok as ∧ ∀ c, c < 256 → Ix.asciiContains as c = .ok (asciiContains chars c) :=
+  Ix.asciiSet_refines chars hb
+
 /-- The checked operations do report what Go would panic on (the theorems above are not vacuous): reading past
 the end, an inverted slice, `parseScheme` without its `len(str) == 0 ||` guard, `lastByte` without its guard. -/
 example : Ix.idx [1, 2, 3] 3 = .error () := by rfl
@@ -365,6 +379,8 @@ example : Ix.slice [1, 2, 3] 2 1 = .error () := by rfl
 example : Ix.slice [1, 2, 3] 1 4 = .error () := by rfl
 example : (Ix.idx [] 0 >>= fun c => pure (Lex.isLowerAlpha c) : Ix.Chk Bool) = .error () := by rfl
 example : Ix.idx [] (Ix.len [] - 1) = .error () := by rfl
+example : Ix.insertG [1, 2, 3] 4 (9 : Nat) = .error () := by rfl
+example : Ix.asciiContains [0, 0, 0, 0, 0, 0, 0] 255 = .error () := by rfl
 example : Ix.parseScheme (Spec.b "https://a") = .ok (some (Spec.b "https", Spec.b "://a")) := by rfl
 example : Ix.splitAtCommonSuffix (Spec.b "foo.example.com") (Spec.b "bar.example.com")
     = .ok (Spec.b "foo", Spec.b "bar", Spec.b ".example.com") := by rfl
@@ -382,6 +398,10 @@ transliteration was written from (Gen/Facts.lean carries today's texts in the co
   * `headers.trimLeftOWS|func(s string, n int) (string, bool) { sCopy := s var i int for len(s) > 0 { if i > n { return sCopy, false } if !isOWS(s[0]) { break } s = s[1:] i++ } return s, true }`
   * `headers.trimRightOWS|func(s string, n int) (string, bool) { sCopy := s var i int for len(s) > 0 { if i > n { return sCopy, false } if !isOWS(s[len(s)-1]) { break } s = s[:len(s)-1] i++ } return s, true }`
   * `headers.cutAtComma|func(str string, n uint) (before, after string, found bool) { end := int(min(uint(len(str)), n)) if i := strings.IndexByte(str[:end], ','); i >= 0 { after = str[i+1:] return str[:i], after, true } return str, "", false }`
+  * `headers.First|func(hdrs http.Header, k string) (string, []string, bool) { v, found := hdrs[k] if !found || len(v) == 0 { return "", nil, false } return v[0], v[:1], true }`
+  * `origins.insert|func[T any](s []T, i int, v T) []T { var dummy T s = append(s, dummy) copy(s[i+1:], s[i:]) s[i] = v return s }`
+  * `util.MakeASCIISet|func(chars string) ASCIISet { var as ASCIISet for i := range len(chars) { c := chars[i] as[c/32] |= 1 << (c % 32) } return as }`
+  * `util.(*ASCIISet).Contains|func(c byte) bool { return (as[c/32] & (1 << (c % 32))) != 0 }`
 -/
 def auditedBodies : List Bytes := [
   Spec.b "origins.parseScheme|04a7c4ffcf12f0724767ced4",
@@ -392,7 +412,11 @@ def auditedBodies : List Bytes := [
   Spec.b "headers.TrimOWS|da7dfb15aa3656dbbee9665f",
   Spec.b "headers.trimLeftOWS|7328e23ec641f7df09a1aa2f",
   Spec.b "headers.trimRightOWS|96fe99d0132768759e70ca53",
-  Spec.b "headers.cutAtComma|dfcfd5fceca561452ab19331"
+  Spec.b "headers.cutAtComma|dfcfd5fceca561452ab19331",
+  Spec.b "headers.First|42c035fb58f9353926d95d4e",
+  Spec.b "origins.insert|fb4213f2b7d6db6f6915e660",
+  Spec.b "util.MakeASCIISet|32a0ffb8e82102331e8343b7",
+  Spec.b "util.(*ASCIISet).Contains|d91cdec9740b2a4dc9133158"
 ]
 
 /-- **C17 (bodies).** The functions modelled at index level read, today, exactly as they did when the
@@ -415,6 +439,9 @@ theorem C17_ix_bodies : Facts.cors_ixBodies = auditedBodies := by decide +kernel
 #print axioms C17_ix_splitAtCommonSuffix
 #print axioms C17_ix_trimOWS
 #print axioms C17_ix_cutAtComma
+#print axioms C17_ix_insert
+#print axioms C17_ix_first
+#print axioms C17_ix_asciiSet
 #print axioms C17_ix_bodies
 
 end Cors
